@@ -359,10 +359,11 @@ func runC02(c *Ctx) {
 		emit("reg:refused", 0, runC02Once(w, cs, "reg:refused", 0, clean.conn))
 		emit("reg:transport", 0, runC02Once(w, cs, "reg:transport", 0, clean.conn))
 		// lost reports: on the clean run and on a failing undo-log insert / commit
-		lostN := []int{1, 2, 5}[r.Intn(3)]
+		lostN := []int{1, 5, 2, 5}[(i/5)%4]
 		if i%5 == 0 {
 			emit("none", lostN, runC02Once(w, cs, "none", lostN, clean.conn))
 			emit(fmt.Sprintf("db:%d", clean.nDB), lostN, runC02Once(w, cs, fmt.Sprintf("db:%d", clean.nDB), lostN, clean.conn))
+			emit(fmt.Sprintf("db:%d", clean.nDB-1), lostN, runC02Once(w, cs, fmt.Sprintf("db:%d", clean.nDB-1), lostN, clean.conn))
 		}
 	}
 }
